@@ -1,4 +1,411 @@
-import Vita.C09.Model
+/-
+  C09 — dataset import is faithful to the table.
+
+  Model: Vita/C09/Csv.lean (pocket_csv) and Vita/C09/Model.lean (dataframe import).
+  Vocabulary of the statements (defined in the Lemmas files, all plain recursive functions):
+
+    renderField f q / renderLine d fields / renderFile eol lines
+                      how a table is written: a field as it is or between quotes with inner quotes
+                      doubled, fields joined by the delimiter, every line ended by `eol` LF
+    needsQuote d f    the field contains the delimiter or its first non-blank character is a quote
+    prep outIdx r     the record as the dataframe sees it: output cell first (an empty surrogate
+                      cell when there is no output column), the other cells in their order
+    kinds o true r'   the domain each column gets from the first data record
+    cellVal o d x     the value a cell of a column with domain `d` has to become
+                      (number ↦ `std::stod (trim x)`, text ↦ `trim x`)
+    inputVals o D xs  the values of the input cells (columns without a domain are skipped)
+    RowOK o D r'      the cells of the record convert under the domains `D`
+    Regr / Classif    all output cells are numbers (or there is no output) / all are labels
+
+  Number parsing is a parameter (`NumOracle`): `isNum` = vita::is_number, `stod` = std::stod,
+  `stoi` = std::stoi; every theorem holds for every such oracle and every number type `F`.
+-/
+import Vita.C09.LemmasRead
+import Vita.C09.LemmasSniff
+
 namespace Vita.C09
-theorem placeholder : True := trivial
+
+variable {F : Type}
+
+/-! ## 1. `parse_line` inverts rendering -/
+
+/-- For every delimiter (other than NUL and the quote), every list of fields free of NUL / CR /
+    LF and **every** choice of the fields to quote that includes the ones that need it, parsing
+    the rendered line gives the fields back (trimmed when `trim_ws` is on), also when the line
+    ends with the CR of a CR LF pair. -/
+theorem parse_render (d : Char) (trimWs : Bool) (eol : Str) (fields : List (Str × Bool))
+    (h0 : d ≠ '\x00') (hq : d ≠ '"') (heol : EolOK d eol) (hne : fields ≠ [])
+    (hclean : ∀ p ∈ fields, Clean p.1) (hquoted : ∀ p ∈ fields, needsQuote d p.1 = true → p.2 = true) :
+    parseLine { delim := d, trimWs := trimWs } (renderLine d fields ++ eol) =
+      fields.map (fun p => if trimWs then trim p.1 else p.1) := by
+  have := go_line { delim := d, trimWs := trimWs } h0 hq eol heol fields [] hne (fun _ _ _ => rfl)
+    (fun p hp => ⟨hclean p hp, fun h2 => by
+      cases hn : needsQuote d p.1 with
+      | false => rfl
+      | true => have := hquoted p hp hn; rw [h2] at this; cases this⟩)
+  simpa [parseLine, fieldOut] using this
+
+/-- "quote iff needed" -/
+theorem parse_render_minimal (d : Char) (fields : List Str) (h0 : d ≠ '\x00') (hq : d ≠ '"')
+    (hne : fields ≠ []) (hclean : ∀ f ∈ fields, Clean f) :
+    parseLine { delim := d } (renderLine d (fields.map (fun f => (f, needsQuote d f)))) = fields := by
+  have := parse_render d false [] (fields.map (fun f => (f, needsQuote d f))) h0 hq (Or.inl rfl)
+    (by simpa using hne)
+    (by intro p hp; simp only [List.mem_map] at hp; obtain ⟨f, hf, rfl⟩ := hp; exact hclean f hf)
+    (by intro p hp; simp only [List.mem_map] at hp; obtain ⟨f, hf, rfl⟩ := hp; exact id)
+  simpa [Function.comp_def] using this
+
+theorem needsQuote_le_rfc (d : Char) (f : Str) (h : needsQuote d f = true) : needsQuoteRfc d f = true := by
+  simp only [needsQuote, needsQuoteRfc, Bool.or_eq_true] at *
+  rcases h with h | h
+  · exact Or.inl h
+  · right
+    have hsuf : f.dropWhile isSpace <:+ f := List.dropWhile_suffix _
+    cases hd : f.dropWhile isSpace with
+    | nil => simp [hd] at h
+    | cons a r =>
+      simp only [hd, List.head?_cons, beq_iff_eq, Option.some.injEq] at h
+      subst h
+      have : '"' ∈ f := hsuf.subset (by simp [hd])
+      simpa using this
+
+/-- the conventional rule (quote every field that contains the delimiter or a quote) and
+    "quote everything" are supersets of what is needed -/
+theorem parse_render_rfc (d : Char) (fields : List Str) (h0 : d ≠ '\x00') (hq : d ≠ '"')
+    (hne : fields ≠ []) (hclean : ∀ f ∈ fields, Clean f) :
+    parseLine { delim := d } (renderLine d (fields.map (fun f => (f, needsQuoteRfc d f)))) = fields ∧
+    parseLine { delim := d } (renderLine d (fields.map (fun f => (f, true)))) = fields := by
+  constructor
+  · have := parse_render d false [] (fields.map (fun f => (f, needsQuoteRfc d f))) h0 hq (Or.inl rfl)
+      (by simpa using hne)
+      (by intro p hp; simp only [List.mem_map] at hp; obtain ⟨f, hf, rfl⟩ := hp; exact hclean f hf)
+      (by intro p hp; simp only [List.mem_map] at hp; obtain ⟨f, hf, rfl⟩ := hp; exact needsQuote_le_rfc d f)
+    simpa [Function.comp_def] using this
+  · have := parse_render d false [] (fields.map (fun f => (f, true))) h0 hq (Or.inl rfl)
+      (by simpa using hne)
+      (by intro p hp; simp only [List.mem_map] at hp; obtain ⟨f, hf, rfl⟩ := hp; exact hclean f hf)
+      (by intro p hp; simp only [List.mem_map] at hp; obtain ⟨f, hf, rfl⟩ := hp; exact fun _ => rfl)
+    simpa [Function.comp_def] using this
+
+/-! ## 2. class encoding -/
+
+/-- `classes_map_` as `read_csv` / `read_xrff` leave it satisfies `ClassInv` (ids = positions,
+    labels distinct): it starts empty and only `encode` touches it -/
+theorem encode_preserves (m : ClassMap) (h : ClassInv m) (l : Str) : ClassInv (encode m l).2 :=
+  encode_inv m h l
+
+/-- equal labels get equal ids: the id `encode` returns is the one stored for the label, and the
+    label keeps it however many labels are encoded afterwards -/
+theorem encode_fun (m : ClassMap) (l : Str) :
+    lookup (encode m l).2 l = some (encode m l).1 ∨ ¬ ClassInv m := by
+  by_cases h : ClassInv m
+  · exact Or.inl (lookup_of_mem _ (encode_inv m h l) l _ (encode_mem m l))
+  · exact Or.inr h
+
+theorem encode_stable (m : ClassMap) (h : ClassInv m) (l l' : Str) (i : Nat) (hl : lookup m l = some i) :
+    lookup (encode m l').2 l = some i := by
+  obtain ⟨t, ht⟩ := encode_grow m l'
+  apply lookup_of_mem _ (encode_inv m h l')
+  rw [ht]
+  exact List.mem_append_left _ (lookup_some_mem m l i hl)
+
+/-- distinct labels get distinct ids -/
+theorem encode_inj (m : ClassMap) (h : ClassInv m) (l1 l2 : Str) (i : Nat)
+    (h1 : lookup m l1 = some i) (h2 : lookup m l2 = some i) : l1 = l2 := by
+  have hnd : (m.map (·.2)).Nodup := by rw [h.1]; exact List.nodup_range
+  have := nodup_map_inj (·.2) m hnd (l1, i) (lookup_some_mem m l1 i h1) (l2, i) (lookup_some_mem m l2 i h2) rfl
+  exact congrArg Prod.fst this
+
+/-- names are recoverable from ids -/
+theorem class_name_left_inverse (m : ClassMap) (h : ClassInv m) (l : Str) :
+    className (encode m l).2 (encode m l).1 = l :=
+  className_of_mem _ (encode_inv m h l) l _ (encode_mem m l)
+
+theorem class_name_of_lookup (m : ClassMap) (h : ClassInv m) (l : Str) (i : Nat) (hl : lookup m l = some i) :
+    className m i = l :=
+  className_of_mem m h l i (lookup_some_mem m l i hl)
+
+/-! ## 3. rows of a well-formed table -/
+
+/-- a table as the generator of a file sees it: cells with the decision to quote them -/
+structure Table where
+  header : Option (List (Str × Bool))
+  row0 : List (Str × Bool)
+  rest : List (List (Str × Bool))
+
+def Table.rows (t : Table) : List (List (Str × Bool)) := t.row0 :: t.rest
+def Table.lines (t : Table) : List (List (Str × Bool)) := t.header.toList ++ t.rows
+
+/-- the file: one line per row, fields joined by `d`, lines ended by `eol` LF -/
+def Table.render (d : Char) (eol : Str) (t : Table) : Str := renderFile eol (t.lines.map (renderLine d))
+
+/-- the text of the cells of a row as the parser hands them over (trimmed when `trim_ws` is on) -/
+def fieldsOf (trimWs : Bool) (l : List (Str × Bool)) : List Str := l.map (fun p => if trimWs then trim p.1 else p.1)
+
+structure WellFormed (d : Char) (eol : Str) (t : Table) : Prop where
+  d0 : d ≠ '\x00'
+  dq : d ≠ '"'
+  dn : d ≠ '\n'
+  eol_ok : EolOK d eol
+  /-- rectangular, at least one column -/
+  rect : ∀ l ∈ t.lines, l.length = t.row0.length
+  width : t.row0 ≠ []
+  /-- cells are free of NUL / CR / LF and every cell that needs quotes is quoted -/
+  clean : ∀ l ∈ t.lines, ∀ p ∈ l, Clean p.1 ∧ (p.2 = false → needsQuote d p.1 = false)
+  /-- no line consists of white space only (such a line is skipped by the parser) -/
+  visible : ∀ l ∈ t.lines, isBlank (renderLine d l ++ eol) = false
+
+/-- the columns are consistently typed: the cells of every row convert under the domains the
+    first data row establishes, and the output column is all numbers or all labels (≥ 2 classes) -/
+structure Typed (o : NumOracle F) (outIdx : Option Nat) (trimWs : Bool) (t : Table) : Prop where
+  rows : ∀ r ∈ t.rows, RowOK o (kinds o true (prep outIdx (fieldsOf trimWs t.row0))) (prep outIdx (fieldsOf trimWs r))
+  cls : Regr o (kinds o true (prep outIdx (fieldsOf trimWs t.row0))) (t.rows.map (fun r => prep outIdx (fieldsOf trimWs r))) ∨
+        (Classif o (kinds o true (prep outIdx (fieldsOf trimWs t.row0))) (t.rows.map (fun r => prep outIdx (fieldsOf trimWs r))) ∧
+         (specRows o (kinds o true (prep outIdx (fieldsOf trimWs t.row0))) []
+            (t.rows.map (fun r => prep outIdx (fieldsOf trimWs r)))).1.length ≠ 1)
+
+/-- with output index `k` the record seen by the dataframe is cell `k` followed by the others -/
+theorem prep_some (r : List Str) (k : Nat) (h : k < r.length) : prep (some k) r = r[k] :: r.eraseIdx k := by
+  unfold prep rot
+  by_cases hk : k = 0
+  · subst hk
+    cases r with
+    | nil => simp at h
+    | cons a b => simp
+  · simp only [hk, if_false, List.getElem?_eq_getElem h, List.eraseIdx_eq_take_drop_succ]
+
+theorem prep_none (r : List Str) : prep none r = [] :: r := rfl
+
+theorem records_of_table (d : Char) (eol : Str) (t : Table) (trimWs : Bool) (filter : List Str → Bool)
+    (hwf : WellFormed d eol t) :
+    records { delim := d, trimWs := trimWs } filter (splitLines (t.render d eol)) =
+      (t.lines.map (fieldsOf trimWs)).filter filter := by
+  have := records_render { delim := d, trimWs := trimWs } rfl hwf.d0 hwf.dq hwf.dn eol hwf.eol_ok filter t.lines
+    (fun l hl => by
+      intro h
+      have := hwf.rect l hl
+      rw [h] at this
+      exact hwf.width (List.length_eq_zero_iff.1 this.symm))
+    hwf.clean hwf.visible
+  exact this
+
+/-- **rows_faithful.**  Reading the rendered file of a well-formed, consistently typed table with
+    the explicit dialect (delimiter `d`, header flag = whether the table has one) succeeds and yields
+    one example per data row, in order; example `i` has as inputs exactly the values of the
+    non-output cells of row `i` in their original order, as output the value of the designated
+    cell (nothing when there is no output column, the number for a numeric output, the class id of
+    the label otherwise – with the label recoverable from the id); the columns are named by the
+    header (output first) and carry the domains of the first data row. -/
+theorem rows_faithful (cfg : Cfg) (o : NumOracle F) (d : Char) (eol : Str) (t : Table) (p : Params)
+    (hd : p.delim = d) (hh : p.header = some t.header.isSome) (hf : p.filter = fun _ => true)
+    (hwf : WellFormed d eol t) (hk : ∀ k, p.outIdx = some k → k < t.row0.length)
+    (hty : Typed o p.outIdx p.trimWs t) :
+    ∃ df, readCsv cfg o p (t.render d eol) = .ok df ∧
+      df.examples.length = t.rows.length ∧
+      (∀ pr ∈ t.rows.zip df.examples,
+        pr.2.input = inputVals o (kinds o true (prep p.outIdx (fieldsOf p.trimWs t.row0))).tail
+                       (prep p.outIdx (fieldsOf p.trimWs pr.1)).tail) ∧
+      (Regr o (kinds o true (prep p.outIdx (fieldsOf p.trimWs t.row0)))
+          (t.rows.map (fun r => prep p.outIdx (fieldsOf p.trimWs r))) →
+        df.classes = [] ∧
+        ∀ pr ∈ t.rows.zip df.examples,
+          pr.2.output = if outDom (kinds o true (prep p.outIdx (fieldsOf p.trimWs t.row0))) = .void then .void
+            else cellVal o (outDom (kinds o true (prep p.outIdx (fieldsOf p.trimWs t.row0))))
+                   ((prep p.outIdx (fieldsOf p.trimWs pr.1)).headD [])) ∧
+      (Classif o (kinds o true (prep p.outIdx (fieldsOf p.trimWs t.row0)))
+          (t.rows.map (fun r => prep p.outIdx (fieldsOf p.trimWs r))) →
+        ClassInv df.classes ∧
+        ∀ pr ∈ t.rows.zip df.examples, ∃ id : Nat,
+          pr.2.output = .int id ∧
+          lookup df.classes (trim ((prep p.outIdx (fieldsOf p.trimWs pr.1)).headD [])) = some id ∧
+          className df.classes id = trim ((prep p.outIdx (fieldsOf p.trimWs pr.1)).headD [])) ∧
+      skel df.cols =
+        (colNames p.outIdx (t.header.map (fieldsOf p.trimWs)) (prep p.outIdx (fieldsOf p.trimWs t.row0)).length).zip
+          (kinds o true (prep p.outIdx (fieldsOf p.trimWs t.row0))) := by
+  have hd0 : p.delim ≠ '\x00' := by rw [hd]; exact hwf.d0
+  have hrecs := records_of_table d eol t p.trimWs p.filter hwf
+  have hlines : (t.lines.map (fieldsOf p.trimWs)).filter p.filter =
+      (t.header.map (fieldsOf p.trimWs)).toList ++ fieldsOf p.trimWs t.row0 :: t.rest.map (fieldsOf p.trimWs) := by
+    rw [hf]
+    cases hh' : t.header <;> simp [Table.lines, Table.rows, hh']
+  have hflen : ∀ l, (fieldsOf p.trimWs l).length = l.length := fun l => by simp [fieldsOf]
+  obtain ⟨df, hread, hex, hcl, hsk⟩ := readCsvRecs_faithful cfg o p.outIdx (t.header.map (fieldsOf p.trimWs))
+    (fieldsOf p.trimWs t.row0) (t.rest.map (fieldsOf p.trimWs))
+    (by
+      intro r hr k hko
+      have : ∃ l ∈ t.lines, r = fieldsOf p.trimWs l := by
+        cases hh' : t.header with
+        | none =>
+          simp only [hh', Option.map_none, Option.toList_none, List.nil_append, List.mem_cons, List.mem_map] at hr
+          rcases hr with rfl | ⟨l, hl, rfl⟩
+          · exact ⟨t.row0, by simp [Table.lines, Table.rows], rfl⟩
+          · exact ⟨l, by simp [Table.lines, Table.rows, hl], rfl⟩
+        | some h =>
+          simp only [hh', Option.map_some, Option.toList_some, List.singleton_append, List.mem_cons, List.mem_map] at hr
+          rcases hr with rfl | rfl | ⟨l, hl, rfl⟩
+          · exact ⟨h, by simp [Table.lines, hh'], rfl⟩
+          · exact ⟨t.row0, by simp [Table.lines, Table.rows], rfl⟩
+          · exact ⟨l, by simp [Table.lines, Table.rows, hl], rfl⟩
+      obtain ⟨l, hl, rfl⟩ := this
+      rw [hflen, hwf.rect l hl]
+      exact hk k hko)
+    (by
+      intro h hh'
+      cases hh'' : t.header with
+      | none => simp [hh''] at hh'
+      | some h0 =>
+        simp only [hh'', Option.map_some, Option.some.injEq] at hh'
+        subst hh'
+        rw [hflen, hflen]
+        exact hwf.rect h0 (by simp [Table.lines, hh'']))
+    (by
+      intro r hr
+      simp only [List.mem_cons, List.mem_map] at hr
+      rcases hr with rfl | ⟨l, hl, rfl⟩
+      · exact hty.rows t.row0 (by simp [Table.rows])
+      · exact hty.rows l (by simp [Table.rows, hl]))
+    (by simpa [Table.rows, Function.comp_def] using hty.cls)
+  have hrows' : (fieldsOf p.trimWs t.row0 :: t.rest.map (fieldsOf p.trimWs)).map (prep p.outIdx) =
+      t.rows.map (fun r => prep p.outIdx (fieldsOf p.trimWs r)) := by
+    simp [Table.rows, Function.comp_def]
+  rw [hrows'] at hex hcl
+  have hrok : ∀ r' ∈ t.rows.map (fun r => prep p.outIdx (fieldsOf p.trimWs r)), r' ≠ [] := by
+    intro r' hr'
+    simp only [List.mem_map] at hr'
+    obtain ⟨r, hr, rfl⟩ := hr'
+    apply prep_ne_nil
+    intro h
+    have h1 := hflen r
+    rw [h] at h1
+    have h2 := hwf.rect r (by simp [Table.lines, hr])
+    have : t.row0.length = 0 := by simp at h1; omega
+    exact hwf.width (List.length_eq_zero_iff.1 this)
+  have hzip : ∀ pr ∈ t.rows.zip df.examples,
+      (prep p.outIdx (fieldsOf p.trimWs pr.1), pr.2) ∈
+        (t.rows.map (fun r => prep p.outIdx (fieldsOf p.trimWs r))).zip df.examples := by
+    intro pr hpr
+    rw [List.zip_map_left]
+    exact List.mem_map.2 ⟨pr, hpr, rfl⟩
+  have hisSome : (t.header.map (fieldsOf p.trimWs)).isSome = t.header.isSome := by cases t.header <;> rfl
+  refine ⟨df, ?_, ?_, ?_, ?_, ?_, ?_⟩
+  · unfold readCsv resolveDialect
+    simp only [hh, Option.isNone_some, hd0, Bool.false_or, decide_false, Bool.false_eq_true, if_false,
+      Option.getD_some]
+    rw [hd, hrecs, hlines, ← hisSome]
+    exact hread
+  · rw [hex, (specRows_inputs o _ _ [] (fun r' hr' => by
+      simp only [List.mem_map] at hr'
+      obtain ⟨r, hr, rfl⟩ := hr'
+      exact hty.rows r hr)).2]
+    simp
+  · intro pr hpr
+    have := specRows_zip_inputs o _ _ [] hrok _ (by rw [← hex]; exact hzip pr hpr)
+    exact this
+  · intro hr
+    refine ⟨by rw [hcl]; exact specRows_regr o _ _ [] hr, ?_⟩
+    intro pr hpr
+    exact specRows_zip_regr o _ _ [] hrok hr _ (by rw [← hex]; exact hzip pr hpr)
+  · intro hc
+    obtain ⟨hinv, _, _⟩ := specRows_classif o _ _ [] classInv_nil hc
+    rw [← hcl] at hinv
+    refine ⟨hinv, ?_⟩
+    intro pr hpr
+    obtain ⟨id, h1, h2⟩ := specRows_zip_classif o _ _ [] hrok classInv_nil hc _ (by rw [← hex]; exact hzip pr hpr)
+    rw [← hcl] at h2
+    exact ⟨id, h1, lookup_of_mem _ hinv _ _ h2, className_of_mem _ hinv _ _ h2⟩
+  · exact hsk
+
+/-- when every cell of the first data row is non-blank no column lacks a domain and the inputs are
+    simply the converted cells, position by position -/
+theorem inputs_positionwise (o : NumOracle F) (ds : List Dom) (xs : List Str) (h : ∀ d ∈ ds, d ≠ .void) :
+    inputVals o ds xs = List.zipWith (cellVal o) ds xs := inputVals_noVoid o ds xs h
+
+/-- **header_names.**  With a header the column names are the (trimmed) header cells, output
+    column first; without one they are empty – this is the `skel` clause of `rows_faithful`: -/
+theorem header_names (outIdx : Option Nat) (h : List Str) (n : Nat) :
+    colNames outIdx (some h) n = (prep outIdx h).map trim ∧
+    colNames outIdx none n = List.replicate n [] := ⟨rfl, rfl⟩
+
+/-- **filter_absent.**  Reading with a filter hook gives exactly what reading the table without
+    the rejected lines gives (the hook sees the parsed fields of every line, header included). -/
+theorem filter_absent (cfg : Cfg) (o : NumOracle F) (d : Char) (eol : Str) (t : Table) (p : Params)
+    (f : List Str → Bool) (lines' : List (List (Str × Bool)))
+    (hd : p.delim = d) (hh : p.header.isSome) (hwf : WellFormed d eol t)
+    (hl : lines' = t.lines.filter (fun l => f (fieldsOf p.trimWs l))) :
+    readCsv cfg o { p with filter := f } (t.render d eol) =
+    readCsv cfg o { p with filter := fun _ => true } (renderFile eol (lines'.map (renderLine d))) := by
+  have hd0 : p.delim ≠ '\x00' := by rw [hd]; exact hwf.d0
+  have h1 := records_of_table d eol t p.trimWs f hwf
+  have hsub : ∀ l ∈ lines', l ∈ t.lines := by
+    intro l hl'; rw [hl] at hl'; exact (List.mem_filter.1 hl').1
+  have h2 := records_render { delim := d, trimWs := p.trimWs } rfl hwf.d0 hwf.dq hwf.dn eol hwf.eol_ok
+    (fun _ => true) lines'
+    (fun l hl' => by
+      intro h
+      have := hwf.rect l (hsub l hl')
+      rw [h] at this
+      exact hwf.width (List.length_eq_zero_iff.1 this.symm))
+    (fun l hl' => hwf.clean l (hsub l hl')) (fun l hl' => hwf.visible l (hsub l hl'))
+  cases hp : p.header with
+  | none => simp [hp] at hh
+  | some hflag =>
+    unfold readCsv resolveDialect
+    simp only [hp, Option.isNone_some, hd0, Bool.false_or, decide_false, Bool.false_eq_true, if_false,
+      Option.getD_some]
+    rw [hd, h1, h2, hl]
+    congr 1
+    simp [fieldsOf, fieldOut, List.filter_map, Function.comp_def]
+
+/-! ## 4. variables -/
+
+/-- **var_binding.**  `setup_terminals` creates one variable per column after the first; the
+    variable made for column `j + 1` carries index `j`, and evaluating it on an example returns
+    input `j` of that example – the `j`-th non-output cell of the row by `rows_faithful`. -/
+theorem var_binding (strong : Bool) (cols : List Col) (vars : List VarSym) (e : Example F)
+    (h : setupTerminals strong cols = .ok vars) :
+    vars.length = cols.length - 1 ∧
+    ∀ j (hj : j < vars.length), (vars[j]).var = j ∧
+      (vars[j]).name = (if (cols.getD (j + 1) {}).name.isEmpty then 'X' :: natStr (j + 1)
+                        else (cols.getD (j + 1) {}).name) ∧
+      ∀ (hi : j < e.input.length), evalVar vars[j] e = .ok e.input[j] := by
+  unfold setupTerminals at h
+  split at h
+  · cases h
+  · simp only [pure, Except.pure, Except.ok.injEq] at h
+    subst h
+    refine ⟨by simp, ?_⟩
+    intro j hj
+    simp only [List.length_map, List.length_range] at hj
+    simp only [List.getElem_map, List.getElem_range, true_and]
+    intro hi
+    simp [evalVar, fetchVar, List.getElem?_eq_getElem hi, pure, Except.pure]
+
+theorem fetchVar_eq (e : Example F) (i : Nat) (h : i < e.input.length) : fetchVar e i = .ok e.input[i] := by
+  simp [fetchVar, List.getElem?_eq_getElem h, pure, Except.pure]
+
+/-! ## 5. sniffer -/
+
+/-- **sniff_agrees.**  On the tables of the class `Unambiguous` (defined in LemmasSniff.lean: at
+    least two data rows; a header, if present, of non-numeric non-blank cells; data cells that are
+    numbers without letters; no quote and none of the five candidate delimiters `\t , : ; |`
+    inside a cell; the delimiter is one of the five and there are at least two columns)
+    the sniffed dialect is the explicit one, so reading with everything left to the sniffer and
+    reading with the explicit dialect are the same computation. -/
+theorem sniff_agrees (o : NumOracle F) (d : Char) (hdr : Option (List Str)) (rows : List (List Str))
+    (h : Unambiguous o d hdr rows) :
+    sniffer o (splitLines (renderPlain d (hdr.toList ++ rows))) = (d, hdr.isSome) :=
+  sniffer_unambiguous o d hdr rows h
+
+theorem sniffed_read_eq_explicit (cfg : Cfg) (o : NumOracle F) (d : Char) (hdr : Option (List Str))
+    (rows : List (List Str)) (h : Unambiguous o d hdr rows) (p : Params)
+    (hp : p.delim = '\x00' ∧ p.header = none) :
+    readCsv cfg o p (renderPlain d (hdr.toList ++ rows)) =
+    readCsv cfg o { p with delim := d, header := some hdr.isSome } (renderPlain d (hdr.toList ++ rows)) := by
+  have hs := sniffer_unambiguous o d hdr rows h
+  have hd0 : d ≠ '\x00' := by
+    have := h.delim
+    intro hd; subst hd; simp [preferred] at this
+  unfold readCsv resolveDialect
+  simp [hp.1, hp.2, hs, hd0]
+
 end Vita.C09
